@@ -253,7 +253,10 @@ def routeVerdict (m : Mon) (cc : World.CliConf) (sc : World.SrvConf) (sname : St
 /-- C08 on a reply the proxy produced itself for a fresh (not retransmitted) request -/
 def localVerdict (m : Mon) (cc : World.CliConf) (rq out : Bytes) (trToks : List String) : String :=
   -- whatever the realm says, a reply the proxy makes itself is of the kind that answers the request
-  if codeOf rq = 1 && codeOf out != 3 then "bad C08:access-request-answered-locally-with-something-other-than-access-reject"
+  if codeOf rq = 40 && codeOf out != 42 then "bad C05:disconnect-request-not-answered-with-disconnect-nak"
+  else if codeOf rq = 43 && codeOf out != 45 then "bad C05:coa-request-not-answered-with-coa-nak"
+  else if codeOf rq = 12 && codeOf out != 2 then "bad C05:status-server-not-answered-with-access-accept"
+  else if codeOf rq = 1 && codeOf out != 3 then "bad C08:access-request-answered-locally-with-something-other-than-access-reject"
   else if codeOf rq = 4 && codeOf out != 5 then "bad C08:accounting-request-answered-locally-with-something-other-than-accounting-response"
   else
   if cc.rwUser.isSome || rwTouches cc.rwIn 1 then "ok" else
@@ -360,6 +363,9 @@ def popJudge (m : Mon) (k : Nat) (cc : World.CliConf) (outs : List Bytes) : Stri
       | none => "ok"
       | some (.loc rq replay tr) =>
         if replay then "ok"
+        -- C10/C01: what is queued for a NEW request (its identifier may have been used before, its authenticator has not)
+        -- answers that request, not an earlier one with the identifier
+        else if !replyOk H cc.secret (authOf rq) b then "bad C10:reply-to-an-earlier-request-served-for-a-new-request-with-its-identifier"
         -- C06: a reply the proxy makes itself echoes the request's Proxy-State attributes, all of them, in order
         else if !rwTouches cc.rwIn 33 && (attrsOf b).filter (·.1 = 33) != (attrsOf rq).filter (·.1 = 33) then
           "bad C06:local-reply-does-not-echo-the-requests-proxy-states-in-order"
@@ -422,6 +428,9 @@ def monOp0 (m : Mon) (op : String) (args : List String) (impl : List String) (tr
           else if tablesFull && fwdToks.isEmpty && !qgrew && acceptable && !seenIdBefore && cachedIds.contains (idOf pkt).toNat then
             "bad C11:request-kept-in-the-duplicate-cache-though-no-identifier-was-free"
           else if (!fwdToks.isEmpty || qgrew) && !acceptable then "bad C05:unacceptable-request-forwarded-or-answered"
+          -- C05: only Access-, Accounting-, Status-Server, Disconnect- and CoA-Requests are ever answered or forwarded
+          else if (!fwdToks.isEmpty || qgrew) && ![1, 4, 12, 40, 43].contains (codeOf pkt).toNat then
+            "bad C05:packet-of-an-unsupported-code-forwarded-or-answered"
           else if othersGrew then "bad C02:reply-queued-for-another-client"
           else if fwdToks.length > 1 then "bad C01:queued-more-than-once"
           else if ret0 && (wellFormedLoose pkt && authChecksPass H pkt (some cc.secret) none && !expectMacInvalid H pkt (some cc.secret) none) then
@@ -458,7 +467,10 @@ def monOp0 (m : Mon) (op : String) (args : List String) (impl : List String) (tr
             | [] => "ok"
         let m := { m with fwdAt := (if fwdToks.isEmpty then m.fwdAt else (k, pkt, m.now) :: m.fwdAt.filter fun (j, p, _) => !(j = k && p == pkt)),
                           recv := (k, pkt) :: m.recv,
-                          queue := m.queue ++ List.replicate ((ql.getD k 0) - (m.qlen.getD k 0)) (k, QEnt.loc pkt (m.recv.any fun (j, p) => j = k && p == pkt) trToks),
+                          queue := m.queue ++ List.replicate ((ql.getD k 0) - (m.qlen.getD k 0)) (k, QEnt.loc pkt (m.recv.any fun (j, p) => j = k && (p == pkt ||
+                              -- the duplicate test of the code looks at identifier and authenticator of what got past the code filter
+                              ([1, 4, 12].contains (codeOf p).toNat && [1, 4, 12].contains (codeOf pkt).toNat &&
+                               idOf p == idOf pkt && authOf p == authOf pkt))) trToks),
                           fwds := (fwdToks.map fun (s, sl, b) => { srv := s, slot := sl, pkt := b, client := k, rq := pkt, t := m.now }) ++
                                   -- C10: a request treated as new (forwarded or answered) supersedes the older one with its identifier
                                   (m.fwds.map fun f => if f.client = k && idOf f.rq == idOf pkt && (!fwdToks.isEmpty || qgrew) then { f with sup := true } else f) }
